@@ -71,7 +71,52 @@ def mentions_var(node, name):
 STRCMPS = ("strcmp", "strcasecmp", "strncmp", "strncasecmp")
 
 
-def bool_recognition(fn, store_pred):
+def table_rows(prog, name):
+    """rows of a constant global table `static const struct {...} T[] = {{..}, ..}` as lists of constants
+    (str / int / None), or None when T is not such a table"""
+    gv = prog.globals.get(name) or prog.util_globals.get(name)
+    if gv is None or gv.init is None or gv.init < 0 or not gv.is_const:
+        return None
+    nodes = gv.nodes_j
+
+    def const(i):
+        n = nodes[i]
+        while n.get("k") in ("ImplicitCastExpr", "ParenExpr", "CStyleCastExpr", "ConstantExpr") and n.get("ch"):
+            n = nodes[n["ch"][0]]
+        if n.get("k") == "StringLiteral":
+            return n.get("str")
+        if n.get("k") in ("IntegerLiteral", "CharacterLiteral"):
+            return n.get("val")
+        if "cv" in n:
+            return n["cv"]
+        return None
+    top = nodes[gv.init]
+    if top.get("k") != "InitListExpr":
+        return None
+    rows = []
+    for ci in top.get("ch", []):
+        r = nodes[ci]
+        if r.get("k") != "InitListExpr":
+            return None
+        rows.append([const(x) for x in r.get("ch", [])])
+    return rows
+
+
+def _table_ref(n):
+    """n is `T[idx].field` for a global T: (T, render(idx), field index) else None"""
+    n = n.strip()
+    if n.k != "MemberExpr" or n.j.get("arrow") or "fidx" not in n.j:
+        return None
+    b = n.children[0].strip()
+    if b.k != "ArraySubscriptExpr":
+        return None
+    t = b.children[0].strip()
+    if t.k == "DeclRefExpr" and t.j.get("dk") in query.GLOBAL_KINDS:
+        return (t.j["name"], render(b.children[1]), n.j["fidx"])
+    return None
+
+
+def bool_recognition(fn, store_pred, consumer=None):
     """For a function deciding a boolean from text: {target: set of (literal, how)} where target
     is the node selected by store_pred(stmt)->label, `how` in 'strcmp' | 'strcasecmp' | 'hash' | 'empty'.
     An edge 'X equals L' contributes L to the first labelled statement reached through
@@ -99,6 +144,37 @@ def bool_recognition(fn, store_pred):
                 other = a[1]
             if L is not None:
                 rec = (L, "strcasecmp" if "case" in lit.node.j["callee"] else "strcmp", render(other))
+            elif len(a) > 1 and consumer is not None:
+                # table driven: strcmp(text, T[i].word) ... M = T[i].meaning, and M consumed as the result
+                for k2 in (0, 1):
+                    tr = _table_ref(a[k2])
+                    rows = table_rows(fn.prog, tr[0]) if tr else None
+                    if not rows:
+                        continue
+                    cur, seen2, hit = s, set(), None
+                    while cur is not None and cur not in seen2 and hit is None:
+                        seen2.add(cur)
+                        for n2 in cfg.blocks[cur].elems:
+                            if n2.k == "BinaryOperator" and n2.j.get("op") == "=":
+                                tr2 = _table_ref(n2.children[1])
+                                if tr2 and tr2[0] == tr[0] and tr2[1] == tr[1]:
+                                    hit = (render(n2.children[0]), tr2[2])
+                                    break
+                        blk = cfg.blocks[cur]
+                        cur = blk.succs[0] if len(blk.succs) == 1 else None
+                    label_of = consumer(fn, hit[0]) if hit else None
+                    how = "strcasecmp" if "case" in lit.node.j["callee"] else "strcmp"
+                    for row in rows:
+                        word = row[tr[2]] if tr[2] < len(row) else None
+                        if not isinstance(word, str):
+                            continue
+                        r2 = (word, how, render(a[1 - k2]))
+                        lab2 = label_of(row[hit[1]]) if (label_of and hit[1] < len(row) and row[hit[1]] is not None) else None
+                        if lab2 is not None:
+                            out.setdefault(lab2, set()).add(r2)
+                        else:
+                            unknown.append(r2)
+                continue
         elif lit.kind == "eq" and lit.pol:
             for x, y in ((lit.lhs, lit.rhs), (lit.rhs, lit.lhs)):
                 ys = y.strip()
